@@ -145,16 +145,21 @@ Section Optical.
         v <- uniform n0 (cs_dndx_max st) ;;
         if cs_dndx_pre st + u * cs_delta_n st <? v then ckv_fraction f st else ret u
     end.
-  Definition ckv_photon (min_acc : T) (k : consts) (es ns : list T) (d : gdist)
-      (st : ckv_setup) : M photon :=
+  (** [rotf] = the rotate() function (Base/Vec3.v [rotate min_acc] for the
+      current source; C20/RotateVariants.v has both versions) *)
+  Definition ckv_photon_with (rotf : vec3 T -> vec3 T -> vec3 T) (k : consts) (es ns : list T)
+      (d : gdist) (st : ckv_setup) : M photon :=
     fun s =>
     let big := S (length s) in
     ('(e, c, s2) <- ckv_energy big big es ns st ;;
      phi <- uniform n0 twopi ;;
-     let dir := rotate min_acc (from_spherical c phi) (cs_dir st) in
-     let pol := rotate min_acc (from_spherical (- nsqrt s2) phi) (cs_dir st) in
+     let dir := rotf (from_spherical c phi) (cs_dir st) in
+     let pol := rotf (from_spherical (- nsqrt s2) phi) (cs_dir st) in
      u <- ckv_fraction big st ;;
      ret (Photon e (photon_pos d u) dir pol (photon_time k d u))) s.
+  Definition ckv_photon (min_acc : T) (k : consts) (es ns : list T) (d : gdist)
+      (st : ckv_setup) : M photon :=
+    ckv_photon_with (rotate min_acc) k es ns d st.
 
   (** several photons from one generator object; stops at stream exhaustion.
       Result: photons generated (each with the cumulative number of draws) *)
